@@ -657,7 +657,22 @@ pub fn gen_rawreq(r: &mut Rng, nonce: u64, steps: u32, step_ms: u64) -> EchoReq 
 }
 
 pub fn gen_mp(r: &mut Rng, nonce: u64, steps: u32, step_ms: u64) -> EchoReq {
-    let boundary = format!("Sim-Boundary_{}x{}", nonce, r.range(0, 9999));
+    // RFC 2046: 1-70 characters from a set that includes the space (not as
+    // the last one) and '()+_,-./:=? - such boundaries must be quoted
+    let exotic = r.chance(1, 4);
+    let boundary = if exotic {
+        (*r.pick(&[
+            "simple boundary",
+            "a b  c",
+            "gc0p4Jq0M2Yt08j34c0p",
+            "(1+1=2)?:_,./'x",
+            "0",
+            "0123456789012345678901234567890123456789012345678901234567890123456789",
+        ]))
+        .to_string()
+    } else {
+        format!("Sim-Boundary_{}x{}", nonce, r.range(0, 9999))
+    };
     let nf = r.usize_in(0, 4);
     let mut body = Vec::new();
     let mut fields = Vec::new();
@@ -677,7 +692,7 @@ pub fn gen_mp(r: &mut Rng, nonce: u64, steps: u32, step_ms: u64) -> EchoReq {
         fields.push(json!([name, crate::api::echo::hex(&content)]));
     }
     body.extend_from_slice(format!("--{boundary}--\r\n").as_bytes());
-    let style = r.below(4) as u8;
+    let style = if exotic { 2 } else { r.below(4) as u8 };
     let ctype = match style {
         0 | 1 => format!("multipart/form-data; boundary={boundary}"),
         2 => format!("multipart/form-data; boundary=\"{boundary}\""),
